@@ -17,6 +17,7 @@ ENGINE = "tasks"
 LEVEL = "exploration"
 TECHNIQUE = "deterministic simulation: seeded firing order / outcome assignment / cancellation points vs functional spec over the firing history"
 QUICK_RUNS = 150000
+TWIN_P = 0.08   # this share of the runs drives two independent instances of the scenario one after the other (detsim.runner._run_scenario)
 BATCH = 1000
 RUN_WALL_LIMIT_S = 120   # runs take milliseconds; generous because whole-machine stalls >20 s were seen under load
 COMPONENTS = {"real": ["twisted.internet.defer.DeferredList", "twisted.internet.defer.gatherResults",
